@@ -40,6 +40,8 @@ def decorate(prog, rng, custom_types=True):
             n['node_type'] = rng.choice(['ml_model', 'datasource', 'feature', 'generic_x'])
         elif r < 0.35:
             n['node_type'] = rng.choice(['generic', 'recurrent', 'processor'])
+        elif r < 0.45:
+            n['node_type'] = ['enum', rng.choice(['generic', 'recurrent', 'processor'])]   # NodeType member, not its value
         if rng.random() < 0.4:
             n['doc'] = f'Doc of {nid}: ' + rng.choice(['computes', 'loads', 'scores']) + ' something'
         if rng.random() < 0.2:
@@ -89,11 +91,18 @@ def engine_id(prog, nid, modname):
     if n.get('generic_of'):
         b = prog['nodes'][n['generic_of']]
         nt = b['node_type'] if 'node_type' in b else 'processor'
+        if isinstance(nt, list):
+            nt = nt[1]
+        if n.get('inherit_name'):
+            bn = b.get('nm', 'id')
+            return f'{nt or "node"}__{bn[1] if isinstance(bn, list) else b["id"]}'
         return f'{nt or "node"}__{nid}'
     x = n
     while 'node_type' not in x and x.get('base') in prog['nodes']:
         x = prog['nodes'][x['base']]
     nt = x['node_type'] if 'node_type' in x else 'processor'
+    if isinstance(nt, list):
+        nt = nt[1]
     nm = n.get('nm', 'id')
     if nm == 'id':
         name = nid
@@ -377,7 +386,7 @@ RULES['C15'] = ('grammar programs with every mark kind, decorated with naming va
 # C16
 # ----------------------------------------------------------------------------------------------
 
-DEFECTS = ['not_a_class', 'no_base', 'no_process', 'unannotated_param', 'no_annotations', 'generic_unbound',
+DEFECTS = ['generic_twin', 'not_a_class', 'no_base', 'no_process', 'unannotated_param', 'no_annotations', 'generic_unbound',
            'dest_no_protocol', 'start_no_additional_data']
 
 
@@ -385,6 +394,27 @@ def inject(prog, nid, defect):
     """Return (mutated program, expected error class name) or None if the defect does not apply."""
     p = copy.deepcopy(prog)
     n = p['nodes'][nid]
+    if defect == 'generic_twin':
+        # a generic base class and its build_node() rebinding that inherits the base's name (same node id);
+        # the un-rebound base is consumed as well and must still be rejected
+        out = p['nodes'][p['output']]
+        if not n.get('params') or n.get('generic_of') or n.get('generic_base') or n.get('base') or nid == p['input'] \
+                or n.get('kind', 'plain') != 'plain' or n.get('start_of') or n.get('nm', 'id') != 'id' \
+                or out.get('generic_of') or nid == p['output'] \
+                or any(x.get('base') == nid for x in p['nodes'].values()):
+            return None
+        base = copy.deepcopy(n)
+        base_id = 'T' + nid[1:]
+        base['id'] = base_id
+        base['generic_base'] = True
+        base['nm'] = ['custom', 'twin_' + nid]
+        p['nodes'][base_id] = base
+        n['generic_of'] = base_id
+        n['inherit_name'] = True
+        p['order'].insert(p['order'].index(nid), base_id)
+        pos = 0 if (sum(map(ord, nid)) % 2) else len(out['params'])
+        out['params'].insert(pos, ['zt', ['in', base_id]])
+        return p, 'NonRedefinedGenericTypeError'
     if defect == 'not_a_class':
         if any(x.get('base') == nid or x.get('generic_of') == nid for x in p['nodes'].values()):
             return None     # other classes derive from it: the module itself would not import
@@ -596,7 +626,11 @@ def _c20_one(prog):
     mod = materialize.load(prog)
     try:
         try:
-            dag = st['build_dag'](input_node=getattr(mod, prog['input']), output_node=getattr(mod, prog['output']))
+            if prog.get('single'):
+                from ml_pipeline_engine.dag_builders.annotation.builder import build_dag_single
+                dag = build_dag_single(getattr(mod, prog['input']))
+            else:
+                dag = st['build_dag'](input_node=getattr(mod, prog['input']), output_node=getattr(mod, prog['output']))
         except Exception as e:  # noqa: BLE001
             return [F(['C16'], 'valid_program_rejected', err=repr(e)[:300])]
         before = snapshot_dag(dag)
@@ -668,6 +702,10 @@ def work_c20(prop, tier, seed, widx, nworkers):
     for i in range(nprog):
         base = gen.gen_program(rng, gen.profile(p_sw=0.25, p_oneof=0.25, p_rec=0.2))
         prog = decorate(base, rng, custom_types=True)
+        if rng.random() < 0.05:
+            # a pipeline of a single node (build_dag_single): one isolated node, no edges
+            n0 = dict(prog['nodes'][prog['input']])
+            prog = {'nodes': {n0['id']: n0}, 'order': [n0['id']], 'input': n0['id'], 'output': n0['id'], 'single': True}
         if rng.random() < 0.3:
             for n in prog['nodes'].values():
                 for _, m in n.get('params', []):
@@ -693,7 +731,8 @@ def viewer_tags(prog):
     for nid in gen.reachable(prog):
         n = prog['nodes'][nid]
         src = prog['nodes'][n['generic_of']] if n.get('generic_of') else n
-        if 'node_type' in src and src['node_type'] is not None and src['node_type'] not in ENUM_TYPES:
+        if 'node_type' in src and src['node_type'] is not None and not isinstance(src['node_type'], list) \
+                and src['node_type'] not in ENUM_TYPES:
             t.add('custom_node_type')
     return t
 
